@@ -1,16 +1,38 @@
 /-
 Executable Spec of C14 over what the SAME ammo file delivers through two providers (preload off = `s`, on = `p`):
-  * equivalence: same delivered sequence, `Run` ends the same way, consumers see the same end;
+  * equivalence: same delivered sequence, `Run` ends the same way, consumers see the same end
+    (a constructor that rejects the file must reject it in both modes);
   * chosencases: the delivered sequence is exactly the first `T` entries of the endlessly repeated list of chosen
     entries (file order), `T = min⁺(limit, passes · #chosen)` — the limit counts DELIVERED entries — or the
     cancel cap when there is no bound;
   * every delivered ammo carries the tag of its entry.
-A file from which nothing is chosen must deliver nothing and end the same way on both paths (`nomatch`).
+A file from which nothing is chosen (an empty file included) must deliver nothing and end the same way on both
+paths (`nomatch`).
 -/
-import Pandora.Spec.C08
-
 namespace Pandora.Spec.C14
-open Pandora.Spec.C08
+
+inductive RunClass where
+  | nil | canceled | limit | passes | noammo | other | noreturn | construct
+  deriving DecidableEq, Repr, Inhabited
+
+inductive EndClass where
+  | closed | blocked | spinning | norun
+  deriving DecidableEq, Repr, Inhabited
+
+def RunClass.name : RunClass → String
+  | .nil => "nil" | .canceled => "canceled" | .limit => "limit" | .passes => "passes"
+  | .noammo => "noammo" | .other => "other" | .noreturn => "noreturn" | .construct => "construct"
+
+def EndClass.name : EndClass → String
+  | .closed => "closed" | .blocked => "blocked" | .spinning => "spinning" | .norun => "norun"
+
+/-- `none` = unbounded -/
+def expected (limit passes n : Nat) : Option Nat :=
+  match limit, passes with
+  | 0, 0 => none
+  | l, 0 => some l
+  | 0, p => some (p * n)
+  | l, p => some (min l (p * n))
 
 structure Cell where
   tags : List String
